@@ -628,6 +628,9 @@ func matchCallee(pat, callee string) bool {
 	}
 	if i := strings.Index(callee, "["); i > 0 && strings.HasSuffix(callee, "]") && !strings.Contains(pat, "[") {
 		callee = callee[:i] // generic instance: match by the generic name
+		if pat == callee {
+			return true
+		}
 	}
 	if strings.HasPrefix(pat, "*") {
 		return strings.HasSuffix(callee, pat[1:])
